@@ -14,7 +14,7 @@ CONFIG = {
         "the compiler model of C02 (model/J5s{Ast,Walk,Convert,Link}.v); both versions of every generated package are compiled by the real compiler and by the model, and must agree",
     ],
     "mult_search": 3,
-    "refuted": ["C13_append_to_empty_enum_refuted"],
+    "refuted": ["C13_append_to_empty_enum_refuted", "C13_append_to_empty_nested_enum_refuted"],
     "partial": [
         "C13_full is the property for all append edits except one class (edit_ok / enum_append_ok in seq_ok): an option ending in UNSPECIFIED appended to an enum WITHOUT options, for which the property is refuted (C13_append_to_empty_enum_refuted, known finding). The class is exact: C13_append_option_exact (appending one option keeps every earlier enum value iff the enum has options, or the option does not end in UNSPECIFIED, or it spells the implicit zero value itself); other options appended to enums without options are covered (C13_empty_enum_other_options_preserve)",
         "C13_full is proved for the model of C02 (same distance to the code: main files, sub-package files, link boundary, symbol table are modelled and tied by whole-descriptor correspondence; entities, rules, options, descriptions are outside the model). Hypothesis seq_ok: every edit addresses a source file and leaves the bundle valid; `valid` is tied to acceptance by the real compiler on both sides of every generated pair. An option ending in UNSPECIFIED appended to an enum without options is the refuted case",
